@@ -81,6 +81,20 @@ CHECKS = {
          "not part of the property; randomised back-off is checked against its envelope only.",
     technique="TLA+ queue/back-off models + TLC; model-based replay in virtual time; TLC trace validation",
     ref="5.9"),
+ "C17": dict(
+    level="model_checking",
+    text="TLC exhaustively checks DepDB.tla over all sequences of up to 4-5 Register(Q)Controller / UpdateInputs calls from a "
+         "menu of valid and invalid declarations (3 controllers, 2 types, 2 ids): exclusivity, exclusive/shared never coexist, "
+         "no conflicting inputs, rejected calls have no effect, and the implementation-level fold of AddControllerOutput/"
+         "AddControllerInput calls with roll-back refines the atomic property-level call. TLC-generated call sequences "
+         "(registration before and after start, both flavours) run on the real runtime in a synctest bubble; after every call "
+         "the outcome, the exported graph and, for writes to every probe key in three phases, the set of notified probe "
+         "controllers are recorded and judged by TLC (TraceDepDB.tla: must-notify subset-of woken subset-of may-notify). "
+         "A crash of the delivery goroutine is detected as a dead driver process and attributed to the running behaviour.",
+    note="Trusted: TLC, synctest quiescence for 'who woke up'. One namespace; UpdateInputs only for running reduced-runtime "
+         "controllers (API).",
+    technique="TLA+ dependency-database model + TLC (incl. refinement of the call sequences); model-based replay on the real runtime; TLC trace validation",
+    ref="5.17"),
 }
 
 NOT_YET = "check not built yet in this round (planned, see DESIGN.md section 5)"
